@@ -57,6 +57,7 @@ export type Action =
   | 'custom'
   | 'clear'
   | 'clear_parent'
+  | 'take_max'
   | 'either';
 
 function validateAction(action: string): Action {
@@ -70,6 +71,7 @@ function validateAction(action: string): Action {
       'custom',
       'clear',
       'clear_parent',
+      'take_max',
       'either',
     ])
   ) {
@@ -503,6 +505,35 @@ function resolveAction(base: any, decision: MergeDecision): IDiffEntry[] {
     } else {
       return [];
     }
+  } else if (a === 'take_max') {
+    // Emitted by the server for conflicting nbformat_minor values
+    let key: string | null = null;
+    for (let d of _combineDiffs(
+      decision.localDiff,
+      decision.remoteDiff,
+    ) as IDiffObjectEntry[]) {
+      if (key !== null && key !== d.key) {
+        throw new Error('Cannot combine diffs with different keys');
+      }
+      key = d.key;
+    }
+    if (key === null) {
+      return [];
+    }
+    let bval = base[key];
+    let values = [bval];
+    for (let diff of [decision.localDiff, decision.remoteDiff]) {
+      if (diff && diff.length > 0) {
+        values.push((diff[0] as any).value);
+      }
+    }
+    let mval = Math.max(...values);
+    if (mval === bval) {
+      return [];
+    }
+    let d = opReplace(key, mval);
+    d.source = { decision, action: 'custom' };
+    return [d];
   } else if (a === 'clear_parent') {
     if (Array.isArray(base)) {
       let d = opRemoveRange(0, base.length);
